@@ -114,7 +114,7 @@ class Check(Prop):
             "(is_asterisk), trailing, required keywords, optional keywords (is_default) - groups in that order, keywords inside a group "
             "compared as a set unless sorted - with the documented type mapping (Integer->Int, T?->[T,NilClass], unions->lists, "
             "Array[T]->[T], untyped->Untyped); initialize becomes class method new; (3) with the emitted directory as .ti-config, calls "
-            "with k = 0..6 positional literal arguments (all required keywords given) of single-overload methods whose parameters share one "
+            "with k = 0..6 positional literal arguments (all required keywords given), and with each required keyword left out, every optional keyword given and one keyword of another class, of single-overload methods whose parameters share one "
             "simple type are accepted (no diagnostic on the row) exactly when required <= k <= required+optional (+trailing; unbounded with "
             "rest). Non-trivial = >= 1 overload with >= 2 keywords in a group or with optional/rest parameters.")
     ASSUMPTIONS = (
@@ -226,6 +226,22 @@ class Check(Prop):
                         a = [LIT[m["uniform"]]] * k + ["%s: %s" % (kk, LIT[m["uniform"]]) for kk in o["rks"]]
                         lines.append("%s.%s(%s)" % (recv, m["name"], ", ".join(a)))
                         exp.append((len(lines), k >= lo and (hi is None or k <= hi), "%s.%s k=%d accepts [%d,%s]" % (c["name"], m["name"], k, lo, hi)))
+                    # keywords, with an accepted positional count: every required keyword is needed, every optional one may be given,
+                    # and a keyword keeps its own type (a literal of another class is rejected)
+                    pos = [LIT[m["uniform"]]] * lo
+                    other = [v for kname, v in LIT.items() if kname != m["uniform"]][0]
+                    full = ["%s: %s" % (kk, LIT[m["uniform"]]) for kk in o["rks"]]
+                    opts = ["%s: %s" % (kk, LIT[m["uniform"]]) for kk in o["oks"]]
+                    if o["oks"]:
+                        lines.append("%s.%s(%s)" % (recv, m["name"], ", ".join(pos + full + opts)))
+                        exp.append((len(lines), True, "%s.%s with every optional keyword" % (c["name"], m["name"])))
+                    for i_, kk in enumerate(o["rks"]):
+                        lines.append("%s.%s(%s)" % (recv, m["name"], ", ".join(pos + full[:i_] + full[i_ + 1:] + opts)))
+                        exp.append((len(lines), False, "%s.%s without the required keyword %s" % (c["name"], m["name"], kk)))
+                    for kk in (o["rks"][:1] + o["oks"][:1]):
+                        a = pos + [x for x in full + opts if not x.startswith(kk + ":")] + ["%s: %s" % (kk, other)]
+                        lines.append("%s.%s(%s)" % (recv, m["name"], ", ".join(a)))
+                        exp.append((len(lines), False, "%s.%s with keyword %s of another class" % (c["name"], m["name"], kk)))
             if exp:
                 labels.append("arity-probed")
                 src = "\n".join(lines) + "\n"
